@@ -62,6 +62,7 @@ func (e *emitter) op(name string, args ...string) string {
 	curOpName = name
 	keptCur = nil
 	constArgs = nil
+	retainedPtr = map[*byte]bool{}
 	// the op line goes out BEFORE the op runs: if the implementation ends the process (os.Exit in a library, a fatal runtime
 	// error) the last, unfinished line names the op that did it
 	if !e.soaking {
@@ -265,9 +266,15 @@ func retain(live func() string) {
 
 // retainBytes registers a byte slice returned by the implementation and returns it
 func retainBytes(b []byte) []byte {
+	if len(b) > 0 {
+		retainedPtr[&b[0]] = true
+	}
 	retain(func() string { return hx(b) })
 	return b
 }
+
+// retainedPtr: the slices registered for the retention check during the current op (okHex does not overwrite those)
+var retainedPtr = map[*byte]bool{}
 
 // runLines executes op lines read from stdin (replay, corpus, known findings).
 func runLines(e *emitter) {
@@ -329,9 +336,22 @@ func okHex(b []byte, err error) string {
 	if err != nil {
 		return "err"
 	}
+	out := "ok " + hx(b)
+	okHexSeq++
+	if okHexSeq%2 == 0 && len(b) > 0 && len(b) <= 4096 && !retainedPtr[&b[0]] {
+		// what a function hands out is the caller's: every other (short) result is overwritten once it has been recorded — a
+		// result that is really storage shared by all callers (one zero octet for every empty encoding, a package-level
+		// constant returned by reference) then shows up in somebody else's result
+		for i := range b {
+			b[i] = 0xa7 ^ byte(i)
+		}
+		return out
+	}
 	retainBytes(b) // the implementation's own slice: must still read the same after the next op
-	return "ok " + hx(b)
+	return out
 }
+
+var okHexSeq int
 
 // okKeep: "ok <hex>" for a slice obtained from the implementation, registered for the retention check
 func okKeep(b []byte) string { return "ok " + hx(retainBytes(b)) }
